@@ -128,6 +128,45 @@ def check_fresh(case) -> list[Fail]:
     return []
 
 
+def check_history(case) -> list[Fail]:
+    """The schema the models define for SerialHugr under a configuration does not depend on which
+    configurations were applied (to either root model) before in the same process."""
+    from vlib.props.c05 import first_diff
+
+    hist = case["history"]  # list of [root, mode], the last one is ["SerialHugr", mode]
+    code = (
+        "import json, sys\n"
+        "from pydantic import ConfigDict\n"
+        "from pydantic.json_schema import models_json_schema\n"
+        "from hugr._serialization.extension import Extension, Package\n"
+        "from hugr._serialization.serial_hugr import SerialHugr\n"
+        "from hugr._serialization.testing_hugr import TestingHugr\n"
+        "R = {'SerialHugr': SerialHugr, 'TestingHugr': TestingHugr}\n"
+        "C = {'strict': ConfigDict(strict=True, extra='forbid'), 'lax': ConfigDict(strict=False, extra='allow')}\n"
+        f"for root, mode in {hist!r}:\n"
+        "    R[root]._pydantic_rebuild(C[mode], force=True)\n"
+        "_, top = models_json_schema([(s, 'validation') for s in [SerialHugr, Extension, Package]], title='HUGR schema')\n"
+        "json.dump(top, sys.stdout)\n"
+    )
+    env = dict(os.environ, PYTHONPATH=os.path.join(REPO, "hugr-py", "src"))
+    r = subprocess.run([sys.executable, "-c", code], env=env, capture_output=True, text=True, timeout=600)
+    if r.returncode != 0:
+        raise HarnessError("schema generation after a rebuild history failed: " + r.stderr[-500:])
+    name = "hugr_schema_strict_live.json" if hist[-1][1] == "strict" else "hugr_schema_live.json"
+    with open(os.path.join(REPO, "specification", "schema", name)) as f:
+        p = normalise(json.load(f))
+    g = normalise(json.loads(r.stdout))
+    if g != p:
+        path = first_diff(g, p) or "?"
+        return [Fail("schema-files", f"depends-on-rebuild-history:{hist[-1][1]}:{path}", f"after {hist}: the models and {name} differ at {path}")]
+    return []
+
+
+def history_strategy(tier):
+    step = st.tuples(st.sampled_from(["SerialHugr", "TestingHugr"]), st.sampled_from(["strict", "lax"])).map(list)
+    return st.tuples(st.lists(step, min_size=1, max_size=3), st.sampled_from(["strict", "lax"])).map(lambda t: {"history": t[0] + [["SerialHugr", t[1]]]})
+
+
 def enum_files(tier):
     for n in FILES:
         yield {"file": n}
@@ -239,7 +278,7 @@ def schema_accepts(mode, kind, doc):
 
     key = (mode, kind)
     if key not in _validators:
-        name = "hugr_schema_strict_live.json" if mode == "strict" else "hugr_schema_live.json"
+        name = "hugr_schema_strict_live.json" if mode == "strict" else "hugr_schema_live.json"  # the never-rebuilt decoder is judged by the lax schema
         with open(os.path.join(REPO, "specification", "schema", name)) as f:
             s = json.load(f)
         _validators[key] = jsonschema.Draft202012Validator({"$ref": f"#/$defs/{kind}", "$defs": s["$defs"]})
@@ -373,6 +412,23 @@ def check_sweep(case) -> list[Fail]:
     n = 0
     for p, node in paths(doc):
         sh = shape_of(node)
+        if ("unknown-key", sh) not in seen and p:
+            # a key the schema does not know, once per shape: allowed by the lax schema, so the lax decoder and
+            # the decoder as imported (never rebuilt: Hugr.load_json, envelopes) accept it
+            seen.add(("unknown-key", sh))
+            d = copy.deepcopy(doc)
+            tgt = d
+            for x in p:
+                tgt = tgt[x]
+            tgt["zz_unknown_key"] = 1
+            n += 1
+            for mode in ("lax", "default"):
+                a = pydantic_accepts(mode, kind, d)
+                b = schema_accepts("lax", kind, d)
+                if isinstance(a, str):
+                    f.append(Fail("pydantic-error", f"{mode}:{a}", "unknown-key"))
+                elif a != b:
+                    f.append(Fail("disagree", f"unknown-key:{mode}:{sh}", f"{mode} {kind}: decoder accepts={a} lax schema accepts={b} at {p}"))
         for k in sorted(node):
             muts = ["delete-key"]
             if k in DISCRIMINATORS and isinstance(node[k], str):
@@ -483,13 +539,24 @@ def check_strict(case) -> list[Fail]:
         k = ks[case["sel2"] % len(ks)]
         node[k] = str(node[k])
         at = p + (k,)
+    out = []
     a = pydantic_accepts("strict", kind, d)
     b = schema_accepts("strict", kind, d)
     if isinstance(a, str):
         return [Fail("pydantic-error", f"strict:{a}", case["mut"])]
     if a != b:
-        return [Fail("strict-config", f"{case['mut']}:{case['where']}:{'decoder' if a else 'schema'}-accepts", f"strict {kind}: decoder accepts={a} schema accepts={b} at {at}")]
-    return []
+        out.append(Fail("strict-config", f"{case['mut']}:{case['where']}:{'decoder' if a else 'schema'}-accepts", f"strict {kind}: decoder accepts={a} schema accepts={b} at {at}"))
+    if case["mut"] == "unknown-key":
+        # unknown keys are what the lax schema allows: the lax decoder and the decoder as imported (the one that
+        # Hugr.load_json and the envelope reader use) accept them too
+        for mode in ("lax", "default"):
+            a2 = pydantic_accepts(mode, kind, d)
+            b2 = schema_accepts("lax", kind, d)
+            if isinstance(a2, str):
+                out.append(Fail("pydantic-error", f"{mode}:{a2}", case["mut"]))
+            elif a2 != b2:
+                out.append(Fail("disagree", f"unknown-key:{mode}:{shape_of(node)}:{'decoder' if a2 else 'schema'}-accepts", f"{mode} {kind}: decoder accepts={a2} lax schema accepts={b2} at {at}"))
+    return out
 
 
 def strict_strategy(tier):
@@ -509,6 +576,7 @@ REQUIRES = {"deletes-top-level-version": _deletes_version, "strict-config-inside
 SUBS = [
     Sub("sweep", check_sweep, enumerate=lambda tier: iter([{"src": {"kind": "fnconst"}}]), strategy=sweep_strategy, nontrivial=lambda c: True, classes=lambda c: [c["src"]["kind"]], n_quick=5, n_thorough=40, sample_ok=lambda c: len(json.dumps(c)) < 2500),
     Sub("files", check_version, enumerate=enum_files, nontrivial=lambda c: True, exhaustive=True, shardable=False),
+    Sub("rebuild-histories", check_history, enumerate=lambda tier: iter([{"history": [["SerialHugr", x], ["TestingHugr", y], ["SerialHugr", x]]} for x, y in (("strict", "lax"), ("lax", "strict"))] + [{"history": [["TestingHugr", y], ["SerialHugr", x]]} for x, y in (("strict", "lax"), ("lax", "strict"))]), strategy=history_strategy, nontrivial=lambda c: len(c["history"]) >= 3, classes=lambda c: ["ends-" + c["history"][-1][1]], n_quick=4, n_thorough=80),
     Sub("strict-config", check_strict, strategy=strict_strategy, nontrivial=lambda c: c["where"] == "nested", classes=lambda c: [c["mut"] + ":" + c["where"]], n_quick=60, n_thorough=600,
         sample_ok=lambda c: len(json.dumps(c)) < 2500),
     Sub("differential", check_diff, strategy=diff_strategy, nontrivial=nt_diff, classes=lambda c: [c["mut"], c["src"]["kind"]], n_quick=150, n_thorough=1500, sample_ok=lambda c: len(json.dumps(c)) < 2500),
